@@ -55,30 +55,40 @@ func (p SetPattern) Bind(ctx context.Context, local Scope, value Value) (context
 		case IdentPattern:
 		case DynIdentPattern:
 		case ExprPattern:
-			if v, is := t.Expr.(Value); is {
-				if !set.Has(v) {
-					return ctx, EmptyScope, fmt.Errorf("item %s is not included in set %s", v, value)
+			v, is := t.Expr.(Value)
+			if !is {
+				if _, is := t.Expr.(IdentExpr); is {
+					break
 				}
-				set = set.Without(v)
-				continue
+				var err error
+				if v, err = t.Expr.Eval(ctx, local); err != nil {
+					return ctx, EmptyScope, err
+				}
 			}
-
-			if _, is := t.Expr.(IdentExpr); !is {
-				return ctx, EmptyScope, fmt.Errorf("item type %s is not supported yet", t)
+			if !set.Has(v) {
+				return ctx, EmptyScope, fmt.Errorf("item %s is not included in set %s", v, value)
 			}
+			set = set.Without(v)
+			continue
 		case ExprsPattern:
-			// Support cases:
+			// `(e1, e2, ..)` and string literals: the item stands for the value of the first
+			// alternative that is a member, e.g.
 			// AssertCodesEvalToSameValue(t, `{5, 6}`, `let x = 1; let y = 42; let {(x), (y), ...t} = {1, 42, 5, 6}; t`)
 			// AssertCodeErrors(t, "", `let x = 1; let y = 42; let {(x), (y)} = {1, 4}; 2`)
-			if identExpr, is := t.exprs[0].(IdentExpr); is {
-				v, has := local.Get(identExpr.ident)
-				if !has {
-					return ctx, EmptyScope, fmt.Errorf("%q not in scope", identExpr.ident)
+			found := false
+			for _, e := range t.exprs {
+				v, err := e.Eval(ctx, local)
+				if err != nil {
+					return ctx, EmptyScope, err
 				}
-				if !set.Has(v.(Value)) {
-					return ctx, EmptyScope, fmt.Errorf("item %s is not included in set %s", v, value)
+				if set.Has(v) {
+					set = set.Without(v)
+					found = true
+					break
 				}
-				set = set.Without(v.(Value))
+			}
+			if !found {
+				return ctx, EmptyScope, fmt.Errorf("item %s is not included in set %s", t, value)
 			}
 		default:
 			if len(p.patterns) == 1 {
